@@ -534,8 +534,12 @@ H_COSTS = [None, {1: 3}, {0: 5, 1: 10000}]  # no costs / partial dict / dict wit
 H_TABLES = [[[0, 1], [2, 3]], [[4, 0], [0, 10000]]]
 
 
+H_EXT_TABLE = [[0, 7], [3, 0]]  # ce(x, e): read with the CURRENT value of the external variable e
+
+
 def h_ops():
-    ops = [("var", n, ci) for n in ("x", "y", "z") for ci in range(len(H_COSTS))]
+    ops = [("ext", 0), ("ext", 1)]
+    ops += [("var", n, ci) for n in ("x", "y", "z") for ci in range(len(H_COSTS))]
     ops += [("con", "c0", ("x", "y"), t) for t in range(2)] + [("con", "c1", ("y", "z"), t) for t in range(2)]
     ops += [("con", "c0", ("x", "z"), 1), ("swap", "z", "w", 1), ("swap", "w", "z", 2), ("delcon", "c1")]
     return ops
@@ -545,8 +549,11 @@ class HistoryModel:
     def __init__(self):
         self.vars = {"x": 0, "y": 1, "z": 2}  # name -> index in H_COSTS
         self.cons = {"c0": (("x", "y"), 0)}
+        self.ext = 0
 
     def legal(self, op):
+        if op[0] == "ext":
+            return op[1] != self.ext
         if op[0] == "var":
             return op[1] in self.vars and self.vars[op[1]] != op[2]
         if op[0] == "con":
@@ -556,7 +563,9 @@ class HistoryModel:
         return op[1] in self.cons
 
     def apply(self, op):
-        if op[0] == "var":
+        if op[0] == "ext":
+            self.ext = op[1]
+        elif op[0] == "var":
             self.vars[op[1]] = op[2]
         elif op[0] == "con":
             self.cons[op[1]] = (op[2], op[3])
@@ -568,6 +577,7 @@ class HistoryModel:
 
     def solution_cost(self, a, infinity):
         terms = [H_TABLES[t][a[sc[0]]][a[sc[1]]] for sc, t in self.cons.values()]
+        terms.append(H_EXT_TABLE[a["x"]][self.ext])
         terms += [(H_COSTS[ci] or {}).get(a[n], 0) for n, ci in self.vars.items()]
         return sum(1 for t in terms if t == infinity), sum(t for t in terms if t != infinity)
 
@@ -583,6 +593,14 @@ def h_build():
         objs[n] = h_var(n, dom, ci)
         d.add_variable(objs[n])
     h_con(d, objs, "c0", ("x", "y"), 0)
+    # the external variable and its constraint, set on the DCOP as the YAML loader does
+    from pydcop.dcop.objects import ExternalVariable
+    from pydcop.dcop.relations import NAryMatrixRelation
+
+    objs["e"] = ExternalVariable("e", dom, 0)
+    d.external_variables = {"e": objs["e"]}
+    d.constraints["ce"] = NAryMatrixRelation([objs["x"], objs["e"]], H_EXT_TABLE, name="ce")
+    objs["__asg__"] = {}  # the SAME assignment dict objects are handed to solution_cost again after every change
     return d, dom, objs
 
 
@@ -599,7 +617,9 @@ def h_con(d, objs, cname, scope, t):
 
 
 def h_apply(d, dom, objs, op):
-    if op[0] == "var":
+    if op[0] == "ext":
+        objs["e"].value = op[1]
+    elif op[0] == "var":
         objs[op[1]] = h_var(op[1], dom, op[2])
         d.add_variable(objs[op[1]])
     elif op[0] == "con":
@@ -613,13 +633,16 @@ def h_apply(d, dom, objs, op):
         del d.constraints[op[1]]
 
 
-def h_eval(d, model, hist, part):
+def h_eval(d, model, hist, part, objs=None):
     names = sorted(model.vars)
+    cache = objs["__asg__"] if objs is not None else {}
     for vals in itertools.product(H_DOM, repeat=len(names)):
         a = dict(zip(names, vals))
         exp = model.solution_cost(a, 10000)
+        # the caller keeps its assignment dict and passes the very same object again after the DCOP has changed
+        mine = cache.setdefault(tuple(sorted(a.items())), dict(a))
         try:
-            got = tuple(d.solution_cost(dict(a), 10000))
+            got = tuple(d.solution_cost(mine, 10000))
         except Exception as e:  # noqa
             got = ("raised", type(e).__name__)
         part.count("evaluations")
@@ -653,7 +676,7 @@ def history_shard(depth, sub, nsub):
                     continue
             m2 = HistoryModel()
             d, dom, objs = h_build()
-            ok = h_eval(d, m2, [], part)
+            ok = h_eval(d, m2, [], part, objs)
             for i, o in enumerate(h2):
                 if not ok:
                     break
@@ -664,7 +687,7 @@ def history_shard(depth, sub, nsub):
                     ok = False
                     break
                 m2.apply(o)
-                ok = h_eval(d, m2, h2[:i + 1], part)
+                ok = h_eval(d, m2, h2[:i + 1], part, objs)
             part.count("S3_histories")
             part.nontriv(("S3", tuple(map(str, h2))))
             part.outcome(("S3", tuple(sorted(m2.vars.items())), tuple(sorted((k, str(v)) for k, v in m2.cons.items()))))
@@ -745,8 +768,8 @@ def run(ctx):
         "assignment of every strict subset of the variables (must raise ValueError); assignment_cost over all constraints on "
         "every complete assignment x consider_variable_cost x keyword splits (+ one shadowed keyword). Non-trivial = a term "
         "S3 (histories): ONE DCOP object (x, y, z over {0,1}, constraint c0) is evaluated on every assignment, then changed through its public API "
-        "- a variable redefined under the same name with other costs, a constraint replaced under the same name (other table or scope) or added or "
-        "deleted, a variable removed and another added - and evaluated again after every step: every sequence of <= 2 (thorough 3) legal changes, "
+        "- the value of an external variable changed, a variable redefined under the same name with other costs, a constraint replaced under the same name (other table or scope) or added or "
+        "deleted, a variable removed and another added - and evaluated again after every step with the very same assignment dict objects: every sequence of <= 2 (thorough 3) legal changes, "
         "against the accounting of the current definition. "
         "equals infinity and another non-zero term is summed (solution_cost), a non-empty sub-assignment (rejection), a non-zero "
         "variable cost is requested (assignment_cost); non-trivial tokens are term profiles, not cases."
@@ -767,11 +790,11 @@ def replay(case):
         hist = [tuple(tuple(x) if isinstance(x, list) else x for x in o) for o in case["history"]]
         m = HistoryModel()
         d, dom, objs = h_build()
-        ok = h_eval(d, m, [], part)
+        ok = h_eval(d, m, [], part, objs)
         for i, o in enumerate(hist):
             h_apply(d, dom, objs, o)
             m.apply(o)
-            ok = h_eval(d, m, hist[:i + 1], part) and ok
+            ok = h_eval(d, m, hist[:i + 1], part, objs) and ok
             print("after", o, "ok" if ok else "MISMATCH")
         for v in part.violations:
             print(v["key"], "::", v["what"])
